@@ -464,7 +464,61 @@ class C05(Prop):
             evs = random_interleaving(rng2, [outer] + tls)
             limit = rng2.choice(["inf", "flatten", "concat", 1, 2, 5, 20])
             out.append(mk_case(limit, inners, evs, "threads" if i % 5 == 0 else "local", kind="many-inners"))
+        out += self.kick_cases()
         return out
+
+    def kick_cases(self):
+        """The outer stream emits a further inner observable WHILE the operator is starting a queued one (inner kind
+        `kickhot j h`: on subscription it pushes inner j into the outer stream, then it is hot subject h).  The late
+        inner is queued like any other and started when a slot frees: every item once, completion when all have
+        completed (seed C05-10 decided "the queue is drained" before the start and replaced the queue after it).
+        No model for `kickhot`: the expected multiset is part of the case (field `expect`), oracle only."""
+        out = []
+        E = lambda *a: list(a)
+        for fl in ("local", "threads"):
+            for limit in (1, 2):
+                for late in (["cold", ["99"], "c"], ["hot", "2"]):
+                    for early_c in (False, True):
+                        # inners: 0..limit-1 hot occupy the slots; K = kickhot (pushes L, then hot 5); L = the late inner
+                        inners = [["hot", str(j)] for j in range(limit)]
+                        K, L = limit, limit + 1
+                        inners += [["kickhot", str(L), "5"], late]
+                        evs = [E("outer", ["o", str(j)]) for j in range(limit)] + [E("outer", ["o", str(K)])]
+                        expect = []
+                        for j in range(limit):
+                            evs.append(E("inner", str(j), ["n", str(10 + j)])); expect.append(10 + j)
+                        if early_c:
+                            evs.append(E("outer", "c"))
+                        evs.append(E("inner", "0", "c"))          # hand-over: K is started, pushes L (queued)
+                        evs.append(E("inner", "5", ["n", "6"])); expect.append(6)
+                        evs.append(E("inner", "5", "c"))          # K completes: L is started
+                        # (an outer stream that has already completed ignores the kick: no late inner then)
+                        arrives = not early_c
+                        if late[0] == "cold":
+                            if arrives:
+                                expect.append(99)
+                        elif limit == 1:
+                            evs.append(E("inner", "2", ["n", "7"]))
+                            if arrives:
+                                expect.append(7)
+                            evs.append(E("inner", "2", "c"))
+                        for j in range(1, limit):
+                            evs.append(E("inner", str(j), "c"))
+                        if late[0] == "hot" and limit == 2:
+                            # (with two slots hot 2 IS subject 2 only if it is not one of the occupants: it is inner L)
+                            evs.append(E("inner", "2", ["n", "7"]))
+                            if arrives:
+                                expect.append(7)
+                            evs.append(E("inner", "2", "c"))
+                        if not early_c:
+                            evs.append(E("outer", "c"))
+                        c = mk_case(limit, inners, evs, fl, kind="kick")
+                        c.fields.append(("expect", [str(x) for x in sorted(expect)]))
+                        out.append(c)
+        return out
+
+    def compare_from(self, case):
+        return len(case.events) if case.field("expect") else 0
 
     def _random_case(self, rng, wide=False):
         # wide: many inners (queues, counters and inline capacities beyond the small ranges), long inner streams
@@ -513,6 +567,22 @@ class C05(Prop):
 
     # -------------------------------------------------------------- oracle
     def oracle(self, case, lines, model_lines=None):
+        if case.field("expect"):
+            got, terms = [], []
+            for k in range(len(case.events)):
+                b = parse_body(lines.get(k))
+                if b is None or isinstance(b, str):
+                    return {"kind": "stuck:" + str(b).split()[0], "event": k, "detail": f"{b} at {case.events[k]}"}
+                for x in b:
+                    (terms if isinstance(x, str) else got).append(x)
+            want = sorted(int(x) for x in case.field("expect"))
+            if sorted(got) != want:
+                return {"kind": "kick-items", "event": len(case.events) - 1,
+                        "detail": f"delivered {sorted(got)}, every inner's items once = {want}"}
+            if terms != ["C"]:
+                return {"kind": "kick-completion", "event": len(case.events) - 1,
+                        "detail": f"terminals delivered: {terms}; the outer and every inner have completed"}
+            return None
         outs = []
         for k in range(len(case.events)):
             b = parse_body(lines.get(k))
@@ -543,6 +613,8 @@ class C05(Prop):
 
     # -------------------------------------------------------------- shrinking
     def shrink_candidates(self, case):
+        if case.field("expect"):
+            return []          # the expected multiset is part of the case: it is kept as generated
         cands = []
         # drop an event
         for i in range(len(case.events) - 1, -1, -1):
